@@ -335,11 +335,12 @@ func (e *c21env) line(l string) {
 		return
 	}
 	res := "bad-op"
+	var failSig, failDetail string
 	func() {
 		defer func() {
 			if r := recover(); r != nil {
 				res = fmt.Sprintf("panic: %v", r)
-				e.c.Fail("panic in "+l, res)
+				failSig, failDetail = "panic in "+l, res
 			}
 		}()
 		switch w[0] {
@@ -431,7 +432,7 @@ func (e *c21env) line(l string) {
 			if fresh != res {
 				sig := e.classify(w, res, fresh)
 				e.c.Count("differs/" + w[0])
-				e.c.Fail(sig, fmt.Sprintf("%s: long-lived store [%s], new store on the same DB [%s]", l, res, fresh))
+				failSig, failDetail = sig, fmt.Sprintf("%s: long-lived store [%s], new store on the same DB [%s]", l, res, fresh)
 			}
 		}
 	}()
@@ -441,6 +442,9 @@ func (e *c21env) line(l string) {
 		e.c.Count("write/" + w[0])
 	}
 	e.c.Op(l, res)
+	if failSig != "" {
+		e.c.Fail(failSig, failDetail) // after Op: the failure is attributed to this line
+	}
 }
 
 type c21gen struct {
